@@ -57,11 +57,22 @@ pub struct Obs {
     pub harness_errors: Vec<String>,
 }
 
+std::thread_local! {
+    /// attach a user-supplied pool of that many threads to every builder `observe` makes on this thread, BEFORE the
+    /// registrations (the plan must not depend on the pool)
+    static E1_USER_POOL: std::cell::Cell<Option<usize>> = const { std::cell::Cell::new(None) };
+}
+
+pub fn set_e1_user_pool(n: Option<usize>) {
+    E1_USER_POOL.with(|c| c.set(n));
+}
+
 pub fn observe(ops: &[Op], resmap: &[u8], need: Need) -> Obs {
     let info_n = PlanInfo::of(ops).n();
     let ctx = Ctx::new(info_n, resmap.to_vec());
     let mut o = Obs::default();
-    let reg = register(ops, &ctx, None, false);
+    let pool = E1_USER_POOL.with(|c| c.get()).map(|n| Arc::new(rayon::ThreadPoolBuilder::new().num_threads(n).build().unwrap()));
+    let reg = register(ops, &ctx, pool, false);
     o.calls = reg.calls;
     if need.debug {
         o.debug = Some(debug_text(&reg.builder));
